@@ -391,6 +391,17 @@ IMPLICIT_SITES = [
      "parser_mode='json': an integer literal longer than CPython's 4300-digit int<->str limit makes json.loads raise a plain ValueError "
      "(not JSONDecodeError), which get_loader_exceptions('json') does not anticipate",
      {"shape": "json", "entry": "parse_string", "input": "9" * 4400}),
+    ("typing.RegisteredType.deserializer", "decimal.InvalidOperation",
+     "[registered] decimal.Decimal is registered with the default deserializer_exceptions (ValueError, TypeError, AttributeError) but "
+     "Decimal('abc') raises decimal.InvalidOperation, an ArithmeticError",
+     {"shape": "registered", "entry": "parse_args", "input": ["--dec=abc"]}),
+    ("typing.RegisteredType.deserializer", "builtins.OverflowError",
+     "[registered] the timedelta deserializer builds timedelta(days=99999999999): OverflowError, an ArithmeticError",
+     {"shape": "registered", "entry": "parse_args", "input": ["--td=99999999999 days, 0:0:0"]}),
+    ("_loaders_dumpers.yaml_load", AE,
+     "[tag] an explicit !!timestamp tag on a scalar that is not a timestamp: PyYAML's construct_yaml_timestamp calls .groupdict() on a "
+     "failed match (the loader removes only the IMPLICIT timestamp resolver); AttributeError is not a YAMLError",
+     {"shape": "basic", "entry": "parse_args", "input": ["--any=!!timestamp abc"]}),
     ("_actions._ActionPrintConfig.__call__", "builtins.IndexError",
      "argparse hands `--print_config=--` to the action as the empty list: value[0] -> list index out of range",
      {"shape": "basic", "entry": "parse_args", "input": ["--print_config=--"]}),
@@ -400,7 +411,7 @@ EXTRA_ROOTS = []
 # classes added to the universe so that "or any subclass" expands to the concrete classes the fuzz can observe
 EXTRA_UNIVERSE = [
     "builtins.FileNotFoundError", "builtins.PermissionError", "builtins.IsADirectoryError", "builtins.NotADirectoryError",
-    "builtins.UnicodeDecodeError", "builtins.UnicodeError", "builtins.ModuleNotFoundError", "builtins.RecursionError", "builtins.RuntimeError", "builtins.OverflowError", "yaml.representer.RepresenterError",
+    "builtins.UnicodeDecodeError", "builtins.UnicodeError", "builtins.ModuleNotFoundError", "builtins.RecursionError", "builtins.RuntimeError", "builtins.OverflowError", "yaml.representer.RepresenterError", "decimal.InvalidOperation", "builtins.ArithmeticError",
     "builtins.IndexError", "builtins.KeyError", "builtins.StopIteration", "builtins.NotImplementedError",
     "json.decoder.JSONDecodeError", "yaml.error.YAMLError", "yaml.error.MarkedYAMLError", "yaml.scanner.ScannerError",
     "yaml.parser.ParserError", "yaml.composer.ComposerError", "yaml.constructor.ConstructorError", "yaml.reader.ReaderError",
@@ -442,6 +453,8 @@ FINDING_KEYS = {
     21: "any-class-path-override",
     22: "print-config-value-empty",
     23: "json-int-digit-limit",
+    24: "registered-type-arithmetic-error",
+    25: "yaml-timestamp-tag",
 }
 # key -> [(function, class or superclass, kind prefix, modes)]; modes: "t" = only when exit_on_error=True, "f" = only
 # when False, "tf" = both. A site is a finding site only if it ESCAPES an entry point and its class is not the
@@ -471,6 +484,8 @@ FINDING_SITES = {
                                      ("_actions._ActionSubCommands.__call__", AE, "implicit: [subcommand]", "tf"),
                                      ("_core.ArgumentParser._check_value_key", AE, "implicit: [subcommand]", "tf")],
     "any-class-path-override": [("_typehints.ActionTypeHint.__call__", AE, "implicit", "tf")],
+    "registered-type-arithmetic-error": [("typing.RegisteredType.deserializer", "builtins.ArithmeticError", "implicit: [registered]", "tf")],
+    "yaml-timestamp-tag": [("_loaders_dumpers.yaml_load", AE, "implicit: [tag]", "tf")],
     "json-int-digit-limit": [("_loaders_dumpers.json_load", VE, "implicit", "tf")],
     "print-config-value-empty": [("_actions._ActionPrintConfig.__call__", "builtins.IndexError", "implicit", "tf")],
     "list-option-given-mapping": [("_typehints.ActionTypeHint._check_type", "builtins.RuntimeError", "implicit", "tf")],
